@@ -31,3 +31,19 @@ META["C09"] = {
         "a canonical number within 8 epsilon of a cumulative boundary may select either neighbour (closed vs half-open is left open by the property); a disabled channel is never accepted",
     ],
 }
+
+META["C08"] = {
+    "level": "model_checking",
+    "tiers": {
+        "quick": {"shards": 9, "deadline_s": 200,
+                  "bounds": "C <= 4 channels; initial states: uniform default and all constructor-normalised vectors over {0,1,2,0.1}; (beta,min) in {1/4,1/2,1}x{0,0.01,0.9/C}; data alphabet {0,1,1e-3,1e3,1e-30,1e30}^C at depth 1, {0,1,1e-3,1e30}^C deeper; depth 2 for C<=3, depth 1 for C=4; 3 types; plus 5-iteration real runs"},
+        "thorough": {"shards": 9, "deadline_s": 1500,
+                     "bounds": "as quick with depth 3 for C<=3, depth 2 for C=4 (frontier capped at 400000 states per level, reported) and 8-iteration real runs"},
+    },
+    "rule": "breadth-first exploration of weight vectors reachable by refinement; states are merged by the bit pattern of the weights plus the checkpoint parameters; distinct_nontrivial counts distinct transitions that involve a disabled channel or a zero datum",
+    "binding": "no separate model: every transition calls hep::multi_channel_refine_weights / the checkpoint constructors of the tree under test; traces_validated counts nothing here",
+    "assumptions": [
+        "the update-rule oracle (long double reference, 32 eps relative) is applied only where no product w*d^beta underflows below min()/eps or exceeds max()/16 in T; the invariants (finite, >= 0, sum 1, zero stays zero) are checked on every state",
+        "channels <= 4, depth <= 3",
+    ],
+}
